@@ -179,4 +179,17 @@ META = {
         assumptions=["predicates inside conversion recipes are restricted to field ids, P[Model].field and from_param (their meaning is trivial)",
                      "TypedDict sources always carry every key (an absent NotRequired key has no value to link: outside the statement's domain)"],
     ),
+    "C15": _m(
+        "one case = 25 random type expressions (leaves int/str/bool/float/bytes/Decimal/None, Literal sets over 0/1/False/True/str/bytes/None, unions of 2-4 members, "
+        "13 generic forms incl. user generics with unbounded / bound / constrained TypeVars; depth <= 3), each spelled plainly and twice through random meaning-preserving "
+        "rewrites (reorder / nest / duplicate union members, | syntax, Optional <-> Union[X, None], typing alias <-> builtin or collections.abc generic, bare <-> documented "
+        "implicit parameters, split / reorder literal unions, None <-> Literal[None]) and once with a single meaning-changing edit (leaf type, Literal[0] <-> Literal[False], "
+        "literal member added / removed, union member added, generic argument changed). Oracle: an independent canonical form decides which pairs mean the same; normal forms "
+        "must be equal + hash-equal + idempotent for equivalent pairs (every third pair: loaders, dumpers and predicates compared on 45 data), different for edited pairs; "
+        "+ 25 directed documented equivalences / inequalities. distinct = (hint a, hint b); non-trivial = the two spellings differ",
+        cases=(40, 1200), budget=(50, 420),
+        minimums={"quick": {"equivalent_pairs": 9000, "different_pairs": 3000, "behaviour_comparisons": 3000, "distinct_nontrivial": 6000, "rule_reorder-union": 300, "rule_pipe-syntax": 300,
+                            "rule_split-literal-union": 200, "rule_typing-alias<->builtin-generic": 500, "rule_edit-Literal[0]<->Literal[False]": 100, "rule_Optional<->Union[X,None]": 50}},
+        assumptions=["the meaning of an expression is decided by vlib/props/c15.canon (flattened, de-duplicated unions; literal members by (type, value); Literal[None] = None)"],
+    ),
 }
